@@ -318,7 +318,16 @@ pub fn run_case(kind: &str, c: &Case, with_mock: bool) -> Outcome {
             }
             let mut buf = vec![];
             rel.write_relation(&mut buf).map_err(|e| e.to_string())?;
-            let r2 = ZkirRelation::read_relation(&mut &buf[..]).map_err(|e| format!("bin-read:{e}:{}", hex_bytes(&buf)))?;
+            // the relation is followed by other data inside a serialized proving key: reading
+            // must consume exactly what writing produced
+            let mut framed = buf.clone();
+            framed.extend_from_slice(&[0xAA, 0x55, 0xAA]);
+            let mut rd = &framed[..];
+            let r2 = ZkirRelation::read_relation(&mut rd).map_err(|e| format!("bin-read:{e}"))?;
+            if rd.len() != 3 {
+                return Err(format!("read_relation consumes {} bytes of {}", framed.len() - rd.len(), buf.len()));
+            }
+            ZkirRelation::read_relation(&mut &buf[..]).map_err(|e| format!("bin-read-exact:{e}"))?;
             if r2.verif_instructions() != c.prog {
                 return Err("binary round trip changes the program".into());
             }
